@@ -82,8 +82,8 @@ func c04Typed(x *core.Ctx, r *core.Rand, rn *model.Renderer, i int) {
 
 func c04CheckTyped(x *core.Ctx, c *core.Case) {
 	if c.Kind == "validate" {
-		ssrc := &ast.Source{Name: "schema-src.graphql", Input: c.Get("schema")}
-		dsrc := &ast.Source{Name: "request-src.graphql", Input: c.Get("doc")}
+		ssrc := &ast.Source{Name: c20Name(c.Get("schema")) + ".schema", Input: c.Get("schema")}
+		dsrc := &ast.Source{Name: c20Name(c.Get("doc")) + ".request", Input: c.Get("doc")}
 		pc := newPosChecker(x, validator.Prelude, ssrc, dsrc)
 		if !pc.sources[ssrc].lexOK || !pc.sources[dsrc].lexOK {
 			x.Count("skipped:reference-cannot-lex")
@@ -117,7 +117,8 @@ func c04CheckTyped(x *core.Ctx, c *core.Case) {
 	var srcs []*ast.Source
 	for j := 0; j < n; j++ {
 		// some user sources are flagged built-in (plugins do that): positions and file names must not change
-		srcs = append(srcs, &ast.Source{Name: fmt.Sprintf("part%d.graphql", j), Input: c.Get(fmt.Sprintf("src%d", j)), BuiltIn: (len(c.Get("src0"))+j)%3 == 0})
+		// names a path cleaner or URL parser would change: a position names the file exactly as the source does
+		srcs = append(srcs, &ast.Source{Name: fmt.Sprintf("%s.part%d", c20Name(c.Get("src0")), j), Input: c.Get(fmt.Sprintf("src%d", j)), BuiltIn: (len(c.Get("src0"))+j)%3 == 0})
 	}
 	pc := newPosChecker(x, append([]*ast.Source{validator.Prelude}, srcs...)...)
 	for _, s := range srcs {
